@@ -5,6 +5,7 @@ package checks
 import (
 	openfgav1 "github.com/openfga/api/proto/openfga/v1"
 	"github.com/openfga/language/pkg/go/graph"
+	"github.com/openfga/language/pkg/go/transformer"
 )
 
 const wgHooks = true
@@ -15,4 +16,26 @@ func wgBuildUnweighted(pm *openfgav1.AuthorizationModel) (*graph.WeightedAuthori
 
 func wgAssignInOrder(wg *graph.WeightedAuthorizationModelGraph, order []string) error {
 	return wg.VerifAssignWeightsInOrder(order)
+}
+
+// syntaxPositionsHook reads the positions of DSL syntax errors through the verif accessor.
+func syntaxPositionsHook(err error) ([]errPos, bool) {
+	type wrapped interface{ WrappedErrors() []error }
+	var list []error
+	if w, ok := err.(wrapped); ok {
+		list = w.WrappedErrors()
+	} else {
+		list = []error{err}
+	}
+	var out []errPos
+	all := true
+	for _, e := range list {
+		if se, ok := e.(*transformer.OpenFgaDslSyntaxError); ok {
+			l, c := se.VerifPosition()
+			out = append(out, errPos{l, c})
+		} else {
+			all = false
+		}
+	}
+	return out, all && len(out) > 0
 }
